@@ -223,6 +223,11 @@ M('PL2', 'src/xdoctest/plugin.py', "            dtest.config.update(self._examp_
   "            name = dtest.unique_callname", ['C15'], 'pytest module items ignore --xdoctest-options')
 
 
+M('E17', 'src/xdoctest/doctest_example.py', "        self.global_namespace.clear()\n",
+  "        if self.module is not None:\n            self.module.__dict__.update({k: v for k, v in self.global_namespace.items() if k in self.module.__dict__})\n        self.global_namespace.clear()\n",
+  ['C11'], 'doctest assignments written back to the module globals')
+
+
 def make_copy():
     d = tempfile.mkdtemp(prefix='xv_mut_')
     shutil.copytree(os.path.join(REPO, 'src'), os.path.join(d, 'src'),
